@@ -29,7 +29,7 @@ RULE = ('cases: (a) seeded scripts: 1-8 systems with start in [-6,12], frequency
 ASSUMPTIONS = ['systems only log (timestep, id) in execute()', 'clock-warp cases assign SystemManager.timestep (documented attribute)',
                'bool / numpy integer n may be either rejected or treated as that many steps (the property only requires '
                'rejecting non-integers and n<1)']
-FLOORS = {'quick': {'cases_in_mode_warnings': 215, 'cases_in_mode_optimised': 215, 'advance_requests_cut_short_by_a_failing_system': 468, 'ids_taken_over_after_self_retirement': 491, 'retire_cases': 133, 'falsy_system_objects': 715, 'decisions_ran': 5000, 'decisions_not_ran': 5000, 'multi_step_calls': 1000, 'rejected_n_value': 300,
+FLOORS = {'quick': {'pattern_like_or_unnormalised_ids': 900, 'cases_in_mode_warnings': 215, 'cases_in_mode_optimised': 215, 'advance_requests_cut_short_by_a_failing_system': 468, 'ids_taken_over_after_self_retirement': 491, 'retire_cases': 133, 'falsy_system_objects': 715, 'decisions_ran': 5000, 'decisions_not_ran': 5000, 'multi_step_calls': 1000, 'rejected_n_value': 300,
                     'rejected_n_type': 300, 'windows_negative_start': 300, 'windows_end_before_start': 100,
                     'late_registrations': 300, 'warp_cases': 20, 'box_windows': 140, 'collector_windows': 500, 'long_runs': 120, 'long_run_timesteps': 100000, 'spawn_cases': 200,
                     'mid_step_registry_changes': 1000,
@@ -121,7 +121,7 @@ def case_script(ctx, case):
     log, tlog = [], []
     k = rng.randint(1, 8)
     wins = []
-    wid_pool = reps.odd_ids(rng, 'w', k, 0.3)
+    wid_pool = reps.odd_ids(rng, 'w', k, 0.3, ctx)
     for j in range(k):
         start = rng.randint(-6, 12) if rng.random() < 0.93 else -(2 ** 53) - rng.randint(0, 9)        # (a window that opened 2^53 timesteps ago)
         freq = rng.randint(1, 7)
